@@ -2,7 +2,9 @@ package main
 
 import (
 	"fmt"
+	"go/constant"
 	"go/token"
+	"go/types"
 	"sort"
 	"strings"
 
@@ -23,6 +25,9 @@ func valueTerm(cd *codec, r *Result, v ssa.Value) string {
 func valTerm(t *tb, r *Result, v ssa.Value, depth int) string {
 	if depth > 10 {
 		return "..."
+	}
+	if n, ok := t.ssub[v]; ok {
+		return n
 	}
 	switch x := v.(type) {
 	case *ssa.Const:
@@ -167,13 +172,88 @@ func fmtArgs(t *tb, r *Result, args []ssa.Value, from int, depth int) string {
 	return strings.Join(out, ",")
 }
 
-// bufferWrites lists, in dominance order, the writes into a bytes.Buffer that
-// are executable under the specialisation.
+// bufferWrites lists, in source order, the writes into a bytes.Buffer that are executable under the specialisation.
+// Writes performed by in-package helpers that receive the buffer are inlined at the call position (bounded depth), with the
+// helper specialised on its constant arguments and its parameters replaced by the argument terms.
 func bufferWrites(t *tb, r *Result, buf ssa.Value, depth int) string {
 	buf = strip(buf)
 	var origin string
-	var writes []ssa.Instruction
+	type site struct {
+		pos token.Pos
+		txt string
+	}
+	var sites []site
+	seenCall := map[ssa.Instruction]bool{}
 	var collect func(b ssa.Value, seen map[ssa.Value]bool)
+	handle := func(c *ssa.Call, viaIface ssa.Value, raw ssa.Value) {
+		if seenCall[c] || (r != nil && !r.Exec[c.Block()]) {
+			return
+		}
+		seenCall[c] = true
+		cc := c.Common()
+		f := cc.StaticCallee()
+		if f == nil {
+			return
+		}
+		switch f.String() {
+		case "(*bytes.Buffer).WriteByte":
+			sites = append(sites, site{c.Pos(), "byte(" + numTerm(t, cc.Args[1]) + ")"})
+		case "(*bytes.Buffer).WriteString":
+			sites = append(sites, site{c.Pos(), "str(" + valTerm(t, r, cc.Args[1], depth+1) + ")"})
+		case "(*bytes.Buffer).Write":
+			sites = append(sites, site{c.Pos(), "write(" + valTerm(t, r, cc.Args[1], depth+1) + ")"})
+		case "fmt.Fprintf":
+			sites = append(sites, site{c.Pos(), "printf(" + fmtArgs(t, r, cc.Args, 1, depth) + ")"})
+		case "(*bytes.Buffer).Bytes", "(*bytes.Buffer).Len", "(*bytes.Buffer).String":
+		default:
+			// in-package helper receiving the buffer: inline its writes
+			home := c.Parent()
+			if f.Blocks != nil && f.Pkg != nil && home != nil && enclosingPkg(home) == f.Pkg && f != home && depth < maxInline {
+				pi := -1
+				for i, a := range cc.Args {
+					if a == raw || a == viaIface {
+						pi = i
+					}
+				}
+				if pi >= 0 && pi < len(f.Params) {
+					bind := map[ssa.Value]constant.Value{}
+					child := newTB(nil)
+					child.depth, child.tables = t.depth+1, t.tables
+					for i, a := range cc.Args {
+						if i >= len(f.Params) {
+							break
+						}
+						p := f.Params[i]
+						if r != nil {
+							if l := r.get(a); l.k == cst && !l.nilc && l.tbl == nil && l.v != nil && l.v.Kind() != constant.Unknown {
+								bind[p] = l.v
+							}
+						} else if k, ok := a.(*ssa.Const); ok && k.Value != nil {
+							bind[p] = k.Value
+						}
+						if isIntegerType(a.Type()) {
+							child.subst[p] = t.term(a)
+						} else if i != pi {
+							if b, ok := a.Type().Underlying().(*types.Basic); ok && b.Info()&types.IsBoolean != 0 {
+								child.ssub[p] = "?bool"
+							} else {
+								child.ssub[p] = valTerm(t, r, a, depth+1)
+							}
+						}
+					}
+					sub := specializeAt(f, bind, t.tables, depth+1)
+					child.res = sub
+					inner := bufferWrites(child, sub, f.Params[pi], depth+1)
+					inner = strings.TrimPrefix(inner, ": ")
+					if inner != "" {
+						sites = append(sites, site{c.Pos(), inner})
+					}
+					return
+				}
+			}
+			sites = append(sites, site{c.Pos(), shortCallee(cc)})
+		}
+	}
 	collect = func(b ssa.Value, seen map[ssa.Value]bool) {
 		if seen[b] {
 			return
@@ -194,45 +274,24 @@ func bufferWrites(t *tb, r *Result, buf ssa.Value, depth int) string {
 		}
 		if refs := b.Referrers(); refs != nil {
 			for _, ref := range *refs {
-				if r != nil && !r.Exec[ref.Block()] {
-					continue
-				}
 				switch y := ref.(type) {
 				case *ssa.Call:
-					writes = append(writes, y)
-				case *ssa.MakeInterface: // passed as io.Writer to Fprintf
+					handle(y, nil, b)
+				case *ssa.MakeInterface: // passed as io.Writer
 					for _, rr := range *y.Referrers() {
-						if c, ok := rr.(*ssa.Call); ok && (r == nil || r.Exec[c.Block()]) {
-							writes = append(writes, c)
+						if c, ok := rr.(*ssa.Call); ok {
+							handle(c, y, b)
 						}
 					}
-				case *ssa.ChangeInterface:
 				}
 			}
 		}
 	}
 	collect(buf, map[ssa.Value]bool{})
-	sort.SliceStable(writes, func(i, j int) bool { return writes[i].Pos() < writes[j].Pos() })
+	sort.SliceStable(sites, func(i, j int) bool { return sites[i].pos < sites[j].pos })
 	var out []string
-	for _, in := range writes {
-		c := in.(*ssa.Call).Common()
-		f := c.StaticCallee()
-		if f == nil {
-			continue
-		}
-		switch f.String() {
-		case "(*bytes.Buffer).WriteByte":
-			out = append(out, "byte("+numTerm(t, c.Args[1])+")")
-		case "(*bytes.Buffer).WriteString":
-			out = append(out, "str("+valTerm(t, r, c.Args[1], depth+1)+")")
-		case "(*bytes.Buffer).Write":
-			out = append(out, "write("+valTerm(t, r, c.Args[1], depth+1)+")")
-		case "fmt.Fprintf":
-			out = append(out, "printf("+fmtArgs(t, r, c.Args, 1, depth)+")")
-		case "(*bytes.Buffer).Bytes":
-		default:
-			out = append(out, shortCallee(c))
-		}
+	for _, s := range sites {
+		out = append(out, s.txt)
 	}
 	return origin + ": " + strings.Join(out, "; ")
 }
